@@ -651,7 +651,47 @@ func run(c *hc.Ctx) error {
 		impls = append(impls, ok)
 		_ = input
 	}
-	c.Res.Rule = "inputs: every string literal of the html and markdown packages' own test files (TDLib HTML corpus included), tag/markup soups over all supported and some unsupported tags with attributes, character references (valid, truncated, out of range), white space and astral text, the same with invalid UTF-8 fragments, one-step mutations (bit flip, truncate, insert, delete, double) and splices of corpus entries, random bytes; 2/3 HTML (15% with DisableTelegramEscape), 1/3 Markdown; non-trivial = parsed without error and produced at least one entity; distinct = distinct input"
+	// ---- telegramUnescape on character-reference soups (model: TdModel/Model/C37Unescape.lean)
+	refPieces := []string{"&", "&&", "&;", "&#", "&#;", "&#x", "&#X", "&#x;", "&lt", "&lt;", "&gt;", "&amp;", "&amp", "&quot;", "&quot", "&LT;", "&ltx;", "&l", "&laquo;",
+		"&#0;", "&#1;", "&#5", "&#5;", "&#55", "&#55;", "&#128512;", "&#x1F600;", "&#X1f600", "&#xD800;", "&#55296;", "&#1114110;", "&#1114111;", "&#1114112;", "&#x10FFFE;", "&#x10ffff;",
+		"&#4294967296;", "&#4294967297;", "&#2147483648;", "&#99999999999999999999;", "&#xFFFFFFFFF;", "&#x100000041;", "&#12345678;", "&#x;", "&#xg;", "&#9a;", ";", "#", "x", "a", "9", " ", "<", "é", "😀", "\xff", "\x80"}
+	for i := 0; i < c.N(20000, 300000); i++ {
+		var in []byte
+		if i < len(refPieces) {
+			in = []byte(refPieces[i])
+		} else {
+			for k := hc.Pick(r, 1, 1, 2, 3, 4, 6); k > 0; k-- {
+				in = append(in, hc.Pick(r, refPieces...)...)
+			}
+			if r.Chance(30) {
+				in = mutate(r, in)
+			}
+			if r.Chance(10) {
+				in = append(in, r.Bytes(r.Range(0, 6))...)
+			}
+		}
+		input := "unesc " + hc.Hex(in)
+		var out []byte
+		var pv any
+		func() {
+			defer func() { pv = recover() }()
+			out = html.VerifC37TelegramUnescape(append([]byte{}, in...))
+		}()
+		c.Eval(input, bytes.IndexByte(in, '&') >= 0)
+		c.Count("unescape")
+		if pv != nil {
+			c.Fail("unescape-panic", input, fmt.Sprintf("telegramUnescape panicked: %v", pv))
+			lines = append(lines, input)
+			impls = append(impls, "panic")
+			continue
+		}
+		if len(out) > len(in) {
+			c.Fail("unescape-grows", input, fmt.Sprintf("output %x is longer than the input (in-place rewrite)", out))
+		}
+		lines = append(lines, input)
+		impls = append(impls, hc.Hex(out))
+	}
+	c.Res.Rule = "inputs: every string literal of the html and markdown packages' own test files (TDLib HTML corpus included), tag/markup soups over all supported and some unsupported tags with attributes, character references (valid, truncated, out of range), white space and astral text, the same with invalid UTF-8 fragments, one-step mutations (bit flip, truncate, insert, delete, double) and splices of corpus entries, random bytes; 2/3 HTML (15% with DisableTelegramEscape), 1/3 Markdown; telegramUnescape separately on character-reference soups (named, decimal, hex, truncated, overflowing int32, surrogates, out of range); non-trivial = parsed without error and produced at least one entity; distinct = distinct input"
 	c.PartialNote("the tokenizers golang.org/x/net/html and github.com/yuin/goldmark are third-party and not modelled: absence of panics inside them (and in telegramUnescape) is exercised under recover(), not proved")
 	c.PartialNote("fatal runtime errors (stack exhaustion on pathological nesting) would kill the harness and are reported as a harness failure, not caught by recover()")
 	outs, err := c.Drv.Batch(lines)
